@@ -154,9 +154,13 @@ def join_blocks(
     if isinstance(block2, gtirb.CodeBlock):
         assert isinstance(block1, gtirb.CodeBlock)
 
+        # If block1 ends in a jump or return (it has outgoing edges, none of
+        # which is a fallthrough into block2), it never reaches block2.
+        falls_through = not block1.size or not any(block1.outgoing_edges)
         for in_edge in tuple(block2.incoming_edges):
             if _is_fallthrough_edge(in_edge) and in_edge.source is block1:
                 ir.cfg.discard(in_edge)
+                falls_through = True
 
         if not block1.size:
             for in_edge in tuple(block2.incoming_edges):
@@ -167,7 +171,15 @@ def join_blocks(
                 ir.cfg.discard(in_edge)
 
         for out_edge in tuple(block2.outgoing_edges):
-            update_edge(out_edge, ir.cfg, source=block1)
+            if (
+                not falls_through
+                and not block2.size
+                and _is_fallthrough_edge(out_edge)
+            ):
+                # The empty block2's fallthrough is not block1's.
+                ir.cfg.discard(out_edge)
+            else:
+                update_edge(out_edge, ir.cfg, source=block1)
 
         remove_function_block_aux(cache, block2)
 
